@@ -85,7 +85,7 @@ def _ent(p, st, content):
     if stat.S_ISLNK(st.st_mode):
         return {"kind": "l", "target": os.readlink(p), "mtime_ns": st.st_mtime_ns, "ino": st.st_ino}
     if stat.S_ISDIR(st.st_mode):
-        return {"kind": "d", "mtime_ns": st.st_mtime_ns, "ino": st.st_ino}
+        return {"kind": "d", "mtime_ns": st.st_mtime_ns, "ino": st.st_ino, "size": st.st_size}
     e = {"kind": "f", "size": st.st_size, "mtime_ns": st.st_mtime_ns, "ino": st.st_ino, "nlink": st.st_nlink,
          "mode": stat.S_IMODE(st.st_mode), "blocks": st.st_blocks}
     if content:
